@@ -53,7 +53,8 @@ theorem limit_conditions_as_modelled :
 def detachedModelled : List String :=
   ["service/queryLabelsService.go:QueryLabelsService.GenericLabelReq#1",
    "service/queryLabelsService.go:QueryLabelsService.Series#1",
-   "service/queryLabelsService.go:QueryLabelsService.Series#2",
+   "service/queryLabelsService.go:QueryLabelsService.series#1",
+   "service/queryLabelsService.go:QueryLabelsService.series#2",
    "service/queryRangeService.go:QueryRangeService.QueryRange#1",
    "service/queryRangeService.go:QueryRangeService.QueryRange#2",
    "service/queryRangeService.go:QueryRangeService.QueryInstant#1",
